@@ -68,6 +68,10 @@ CLAIMED = {
     text="For every view of ViewAlgebra.tla (which prescribes the view's canonical cells) the replayer builds mpi::message(view.elements()) in one MPI process; every MPI_Type_create_hvector/_resized/_dup/_vector/_commit/_free call is recorded through the PMPI profiling interface and validated by the TLA+ monitor specs/MpiTypes.tla, which rebuilds the type map of every handle from the constructor arguments and requires that (buffer, count, datatype) denotes exactly the prescribed cells x sizeof(int) in order, that the datatype is committed before use and that every created handle is freed exactly once; end to end, MPI_Pack of the message must yield the view's elements in canonical order and MPI_Unpack through the message of a view with rotated memory layout must put the k-th element into the k-th element and touch nothing else.",
     note="bounded: roots D<=3 (4 in thorough), extents 0..3, programs of <= 2 operations, element type int; pack/unpack on MPI_COMM_SELF stand for send/receive; mpi::data(iterator) and create_subarray are not exercised.",
     ref="DESIGN.md section 5 C18", tech="TLA+ trace monitor (MpiTypes.tla) over PMPI-recorded datatype calls on TLC-generated views + end-to-end pack/unpack comparison with the specification's cells"),
+ "C16": dict(
+    text="specs/Constness.tla is a transition system over static descriptions of expressions (category: view, iterator, elements range, elements iterator, cursor, element; dimensionality; writable?) with the rule w' = w and not ConstForcing(step); TLC checks NoEscalation on it and enumerates every access path of bounded length from 9 start kinds (array, static_array, array_ref, each const and non-const; views held by auto&&, by auto const&, and views of const arrays held by auto&&) in dimensionalities 1..3 with the prescribed writability; each path becomes a C++ expression over std::declval whose type is observed at compile time with the detection idiom: is an element reached through it (chained brackets, *elements().begin(), home() cursor, nested *begin()) assignable; read-only paths must offer no assignable element, writable paths must; plus the fixed facts (views and array_ref have no reextent/clear, a named view cannot be copy-constructed).",
+    note="bounded: paths of length <= 2 (3 in thorough, sampled above 120k), D 1..3; a path that is ill-formed for its start type is not judged; 'accepts assignment/fill/swap' is judged at element level only (an operator= whose declaration is well-formed but whose body would fail cannot be seen by the detection idiom).",
+    ref="DESIGN.md section 5 C16", tech="TLA+ transition system enumerated by TLC; each path replayed as a compile-time observation of the implementation's types"),
 }
 
 props = [json.loads(l) for l in open(os.path.join(V, "properties.jsonl"))]
